@@ -96,25 +96,10 @@ Definition g_is_delayed (e : gedge) : bool := match gd e with Some _ => true | N
 Definition gslots' (c : gcircuit) (g : nat) : list gedge :=
   flat_map (fun b => concat (map snd (bucket (fun e => if g_is_delayed e then 1 else 0)%nat (snd b))))
            (bucket (fun e => gkey c (gtgt e)) (ggroup c g)).
-(* unit index of a node inside its structural class, and the source node that is unit p of class g *)
-Definition same_class (a b : node) : bool := Bool.eqb (nsrc a) (nsrc b) && Nat.eqb (ncls a) (ncls b).
-Definition unit_of (c : gcircuit) (i : nat) : nat := length (filter (same_class (gnode c i)) (firstn i (gnodes c))).
-Definition node_of_unit (c : gcircuit) (g p : nat) : nat :=
-  nth p (filter (fun i => nsrc (gnode c i) && Nat.eqb (ncls (gnode c i)) g) (seq 0 (length (gnodes c)))) O.
-Fixpoint pos_of (x : nat) (l : list nat) : nat :=
-  match l with [] => O | y :: l' => if Nat.eqb x y then O else S (pos_of x l') end.
-(* "use source var directly when group covers all its elements": the test is sorted(src_indices) == range(n_src_var),
-   so a chain whose members come from all units of the source vector, each once, IN ANOTHER ORDER reads the vector
-   unpermuted: member number p of the chain reads unit p instead of its own source (vectorized form only) *)
-Definition read_src (c : gcircuit) (e : gedge) : nat :=
-  let g := gkey c (gsrc e) in
-  let members := filter (same_chain c e) (gslots' c g) in
-  let us := map (fun m => unit_of c (gsrc m)) members in
-  let U := units c g in
-  if gvec c && gadd_delay c g && Nat.eqb (length members) U && forallb (fun p => existsb (Nat.eqb p) us) (seq 0 U)
-  then node_of_unit c g (pos_of (unit_of c (gsrc e)) us)
-  else gsrc e.
-Definition impl_srcs (c : gcircuit) : list nat := map (read_src c) (gedges c).
+(* chain input: the code gathers index(var, src_indices) where src_indices[j] is the source unit of member slot j (and takes
+   the whole vector when src_indices == range(n_src_var), which is the same gather; fix D45 removed the `sorted` that made
+   a permuted full cover read the vector unpermuted): every chain is driven by the source of its own edge *)
+Definition impl_srcs (c : gcircuit) : list nat := map gsrc (gedges c).
 Definition spec_srcs (c : gcircuit) : list nat := map gsrc (gedges c).
 
 (* the augmented ODE system: state = node values xs ++ one chain per edge (zs, in edge order);
@@ -179,9 +164,6 @@ Definition g_above_step (c : gcircuit) : bool :=
 Definition g_rates_exact (c : gcircuit) : bool :=
   forallb (fun e => Qceqb (chain_rate c e) (slot_rate c e)) (gedges c).
 Definition g_no_scalar_shared_chain (c : gcircuit) : bool := negb (gcrashes c).
-(* every chain is driven by the source of its own edge (fails for a chain that covers all units of the source vector in
-   another order) *)
-Definition g_own_source (c : gcircuit) : bool := forallb (fun e => Nat.eqb (read_src c e) (gsrc e)) (gedges c).
 (* vectorize=True: a chain with >= 2 member slots whose slot indices are not contiguous (interleaved with another chain) is
    written back through an index array and the target reads `buffered` one rhs call late (observed on the real code; NOT
    modelled by Impl: this guard only delimits the class) *)
@@ -192,4 +174,4 @@ Definition contiguous {A} (f : A -> bool) (l : list A) : bool :=
 Definition g_contiguous_chains (c : gcircuit) : bool :=
   negb (gvec c) || forallb (fun e => contiguous (same_chain c e) (gslots' c (gkey c (gsrc e)))) (gedges c).
 Definition gguards (c : gcircuit) : bool :=
-  g_all_spread c && g_no_undelayed_kernel c && g_above_step c && g_rates_exact c && g_own_source c && g_no_scalar_shared_chain c.
+  g_all_spread c && g_no_undelayed_kernel c && g_above_step c && g_rates_exact c && g_no_scalar_shared_chain c.
